@@ -460,3 +460,34 @@ def junction_degree(case):
             k = _rt(p, 6)
             pts[k] = pts.get(k, 0) + 1
     return max(pts.values()) if pts else 0
+
+
+def pulse_geometry_violations(m):
+    """every pulse must sit on a joint of the two segments it is reported with, and its far ends must be the other
+    ends of exactly those segments (mirrored for the image half of a grounded pulse) - derived from the segment
+    tables of the geometry objects, not from the pulse itself"""
+    out = []
+    mir = np.array([1., 1., -1.])
+    for p in m.pulses:
+        pt = np.array(p.point, float)
+        for h in (0, 1):
+            s = p.segs[h]
+            if s.geobj is not p.geo[h]:
+                out.append(('PULSE-SEGOWNER', 'pulse %d half %d: segment belongs to another object' % (p.idx + 1, h)))
+                continue
+            if not any(s is x for x in s.geobj.segments):
+                out.append(('PULSE-SEGOWNER', 'pulse %d half %d: segment not in the segment table of its object' % (p.idx + 1, h)))
+            a, b = np.array(s.p1, float), np.array(s.p2, float)
+            L = np.linalg.norm(b - a)
+            tol = 2e-3 * L
+            da, db = np.linalg.norm(pt - a), np.linalg.norm(pt - b)
+            if min(da, db) > tol:
+                out.append(('PULSE-JOINT', 'pulse %d: point %s is not an end of its segment %d (%s - %s)' % (p.idx + 1, np.round(pt, 5), h, np.round(a, 5), np.round(b, 5))))
+                continue
+            far = b if da <= db else a
+            if p.ground[h]:
+                far = far * mir
+            e = np.array(p.ends[h], float)
+            if np.linalg.norm(e - far) > tol:
+                out.append(('PULSE-FAREND', 'pulse %d: far end %s of half %d is not the other end %s of its segment' % (p.idx + 1, np.round(e, 5), h, np.round(far, 5))))
+    return out
